@@ -29,6 +29,7 @@ type Features struct {
 	TimeBuiltins                                         bool
 	IncAsValue                                           bool // m++ / m-- used as an Int operand (never with R)
 	CapNamedLikeMetric                                   bool // a capture group named like a declared metric
+	NoTextReads                                          bool // text metrics are never read (for long line streams: `t = t + t` doubles a text on every line)
 	NoRecursiveDecorators                                bool // a decorator is not used inside its own decorated block
 	OnePatternPerCond                                    bool // at most one pattern (line pattern or match operator) per condition
 	NoMixedMetricReads                                   bool // no metric reads inside mixed Int/Float arithmetic or comparisons
@@ -548,7 +549,7 @@ func (g *G) strLeaf(d int) *Expr {
 		}
 	case 4:
 		if g.F.MetricReads && g.F.Text && g.inKey == 0 {
-			if ms := g.metricsOf(TString); len(ms) > 0 && d < g.F.MaxExprDepth+1 {
+			if ms := g.metricsOf(TString); len(ms) > 0 && d < g.F.MaxExprDepth+1 && !g.F.NoTextReads {
 				return g.mread(pick(g, "smetric", ms), d+1)
 			}
 		}
